@@ -17,7 +17,8 @@ check)
   extra=$(echo "$line" | cut -f5)
   rm -f evidence/$prop.json
   # shellcheck disable=SC2086
-  exec ./bin/gosym -property "$prop" -tier "$tier" -run "$harnesses" -params "$params" -out evidence/$prop.json $extra
+  exec ./bin/gosym -harness-dir "$PWD/harness" -known "$PWD/known_findings.json" -replay-dir "$PWD/replays" \
+    -property "$prop" -tier "$tier" -run "$harnesses" -params "$params" -out evidence/$prop.json $extra
   ;;
 replay)
   work=.work/replay.$$
@@ -29,7 +30,7 @@ replay)
   ;;
 harness)
   shift; name=$1; shift
-  exec ./bin/gosym -run "$name" "$@"
+  exec ./bin/gosym -harness-dir "$PWD/harness" -known "$PWD/known_findings.json" -replay-dir "$PWD/replays" -run "$name" "$@"
   ;;
 *)
   echo "usage: $0 check <Cnn> quick|thorough | replay <file> | harness <name> [flags]"; exit 2;;
